@@ -215,6 +215,11 @@ def run(repo, rep, tier):
              ("identify-ends",))
     from . import c14
     L.borrow(repo, rep, "R02.5", "C14", c14._publish, ("registry-key",))
+    # an unquoted attribute value that receives a computed value is quoted
+    # (C09 owns the element details)
+    from . import c09 as _c09
+    L.borrow(repo, rep, "R02.1", "C09", _c09.element_details,
+             ("quote-when-computed",))
     L.state_rule(repo, rep)
 
 
